@@ -134,7 +134,7 @@ func (d *driver) observe(ev *event) {
 }
 
 // exec applies one abstract op to the real state machine.
-func (d *driver) exec(o hx.Op, hid, i int, full bool) event {
+func (d *driver) exec(o hx.Op, hid, i int, full bool) (ret event) {
 	ev := event{Ev: o.Op, Hid: hid, I: i, Id: o.Id, Pt: o.Pt, Lvl: o.Lvl, Meta: o.Meta, Items: o.Items, Errs: [][]interface{}{}}
 	if ev.Meta == nil {
 		ev.Meta = d.zero
@@ -154,6 +154,16 @@ func (d *driver) exec(o hx.Op, hid, i int, full bool) event {
 	progress()
 	d.hist = append(d.hist, o.Op)
 	curHist.Store(strings.Join(d.hist, ","))
+	if o.Op == "saveload" || o.Op == "loadempty" {
+		// a panic inside snapshot / restore is the real code's (the raft loop that calls them would die with it)
+		defer func() {
+			if r := recover(); r != nil {
+				ev.Res, ev.Err = "panic", fmt.Sprint("panic in ", o.Op, ": ", r)
+				d.poisoned = true
+				ret = ev
+			}
+		}()
+	}
 	if o.Op == "saveload" {
 		return d.saveload(ev, hid, full)
 	}
